@@ -21,6 +21,24 @@ CHECKS["C09"] = dict(
   note="Trusted: TLC, Apalache, the term renderer, rt.Rec. Send/Result have no native Go reference; the oracle is the seq.go transcription cross-checked against the structured reference. Bounded: histories of length 5 (quick) / 7 (thorough), 9 generators.",
   design="7 C09, 3.8")
 
+SRC_NOTE = "Trusted: TLC; the renderers (one function per AST node kind; every rendered go-co source must type-check under -tags co or the run exits 2); rt.Rec as the Go twin of Rec.tla; Go's own iter.Pull as the native reference that the specification must equal on every case before any verdict is given (disagreement = exit 2, never a violation). "
+def src(level_text, bounds, design):
+    return dict(level="model_checking",
+      technique="explicit TLA+ specification (CoSource reference coroutine semantics) model-checked by TLC, which enumerates the program family and emits the expected trace of every case; every case replayed through the REAL compiler and runtime; spec validated against native iter.Pull on every case",
+      text=level_text, note=SRC_NOTE + bounds, design=design)
+CHECKS["C01"] = src("TLC enumerates every generator program of the control-flow family up to the size bound x every input tape, interprets it with CoSource.tla (the reference coroutine semantics: yield suspends, MoveNext resumes) and emits the expected (ok, Current) sequence incl. the end point and every finite prefix; each program is compiled by the real rewriter from /repo, built, and run on the real runtime; the delivered values, their order and number and the end of iteration must equal the specification's.",
+  "Bounded: programs up to 3 (quick) / 4 (thorough) statements with free initialisers/conditions/posts, tapes up to 3/4, int elements.", "7 C01, 3.3, 4")
+CHECKS["C02"] = src("Same pipeline on a family with effects at every position and effectful yield expressions; the compared observation is the interleaving itself: recorder entries written by the generator function call (none allowed), by each MoveNext (exactly those between two yields, in source order, including the yielded expression's own), and after the consumer stopped (none allowed). Every truncation length k is a separate run on a fresh iterator.",
+  "Bounded as C01; 'nothing further runs' is observed on the recorder after the last call.", "7 C02")
+CHECKS["C03"] = src("Family of programs that declare, shadow (blocks, if/switch/for initialisers), update and capture (closure created before a yield, called after) locals at all positions relative to yields; CoSource gives cells and per-frame environments; values of the in-scope variables are observed by every effect and yield.",
+  "Bounded: size 3/4; names a, b; one closure shape; excludes closures capturing three-clause loop variables across iterations.", "7 C03, 4.1")
+CHECKS["C05"] = src("Family of main generators delegating with YieldFrom at every statement position (incl. for-post) to three delegates (two yields with an effect in between, maybe-empty, recursive tree walk bounded by the tape); CoSource models delegation as a frame advancing the delegate one step per consumer step, argument evaluated once; effects make laziness and argument evaluation count visible; all truncations as prefixes.",
+  "Bounded: mains up to 3/4 statements, recursion depth bounded by tape length (3 quick / 5 thorough).", "7 C05")
+CHECKS["C11"] = src("The grammars of spec/SrcSyntax.tla + MC_Src.tla alphabets are the supported subset written down; TLC enumerates all members (control flow with every switch form: tagged, default-first, without default, type switch, tag-less) and each is compiled by the real tool and the generated package built without the co tag; configurations: dot / default-name / renamed import of the API, return only where required vs always. A compiler panic, non-zero exit or build error on any member is a violation.",
+  "Bounded: size 3 (quick) / 4 (thorough); configuration dimension on a covering subset in quick.", "7 C11")
+CHECKS["C18"] = src("Control-flow family with panic(\"boom\") at every statement position: the specification says which MoveNext call panics, with which value, and what was delivered before; the driver recovers around every call of the real iterator and the native one and compares; event-budget exhaustion provides panics at arbitrary positions inside loops as well.",
+  "Bounded: size 3/4. Behaviour after the panic is unconstrained (history ends).", "7 C18")
+
 NOT_YET = {}
 
 def main():
